@@ -22,7 +22,7 @@ def main(ctx, args):
         "same model and harness as C09 (Model/Stage.lean, drv_c09, runprog)",
         "NoClash(pair) = the argument code mentions neither the old nor the new binder name, the template does not already use the new name, and the use site (locals, globals) binds neither",
         "a pair = the same program with one binder of the macro body (let / tuple pattern / lambda parameter) consistently renamed inside the macro definition only",
-        "pairs outside NoClash are expected to differ (findings F6, S1): they are counted and the difference is reported as the known class, not as a violation",
+        "pairs outside NoClash are expected to differ (finding F6; S1 is repaired in /repo e02acb0): they are counted and the difference is reported as the known class, not as a violation",
         "macro pipe `x ||> f`: programs are rendered from nameless skeletons (stagegen.pipe_variants); a pair = (rendering with distinct fresh binder names and explicit macro lambdas, rendering with names from {a, b, __lambda_arg_0, __lambda_arg_1} and/or the `_` sugar) whose names resolve lexically to the same binders; both must also equal the skeleton's manual expansion; classes S5 (generated binder __lambda_arg_<i> captures a user splice) and S6 (substitute_macro_arg enters a non-piped macro lambda that binds the same name) are known findings",
     ]
     known = load_known("C10")
@@ -51,7 +51,7 @@ def main(ctx, args):
         for c in sel:
             mo, mr = stagegen.manual(c["orig"]), stagegen.manual(c["ren"])
             pairs.append(dict(c, orig_src=c["orig"].src(), ren_src=c["ren"].src(), orig_sx=c["orig"].sx(), ren_sx=c["ren"].sx(),
-                              dup_o=stagegen.dup_binders(mo), dup_r=stagegen.dup_binders(mr)))
+                              dup_o=False, dup_r=False))
         # the macro pipe: (canonical rendering, variant) pairs of every skeleton
         for v in stagegen.pipe_variants():
             names = ", ".join(f"{k}:{n}" for k, n in sorted(v["naming"].items())) + ("; `_` for " + ",".join(map(str, v["sugar"])) if v["sugar"] else "")
